@@ -196,8 +196,22 @@ def hmac_keyblock_events(ck_ob, f, label, mask, keyarg, lenarg, tagname, statear
 
 def check_hmac(ck_ob, mod, label):
     n = 0
+    forwarded = set()
     for fname in ("tinyjambu_hmac_init", "tinyjambu_hmac_reinit"):
         f = mod.fn(fname)
+        # one of the two may simply forward to the other with the same (state, key, keylen): then the other one's analysis covers it
+        other = "tinyjambu_hmac_reinit" if fname.endswith("_init") else "tinyjambu_hmac_init"
+        try:
+            ps_ = irx.Exec(f, Handler(), havoc="auto", auto=True).run()
+        except Broken:
+            ps_ = []
+        ev_ = calls(ps_[0]) if len(ps_) == 1 and ps_[0].end[0] == "ret" else []
+        if len(ev_) == 1 and ev_[0][2] == other and ev_[0][3] == (repr(Lf.s(("arg", 0))), repr(Lf.s(("arg", 1))), repr(Lf.s(("n", 2)))) and other not in forwarded \
+                and not [k_ for k_ in mode.outs_of(ps_[0])]:
+            forwarded.add(fname)
+            ck_ob(True, "SEQ", f.name, "forwards[%s]" % label, "%s(state, key, keylen) forwards to %s with the same arguments" % (fname, other), "", relpath("%s:%d" % (f.file, f.line)))
+            n += 1
+            continue
         res = hmac_keyblock_events(ck_ob, f, label, 0x36, 1, 2, "ipad")
         for cname, (p, rest) in res.items():
             ck_ob(not rest, "SEQ", f.name, "init-nothing-more(%s)[%s]" % (cname, label), "nothing after the inner key block", "unexpected calls after the key block: %s" % [e[2] for e in rest],
@@ -344,6 +358,8 @@ def check_hkdf(ck_ob, mod, label):
     def c(rule, cond, construct, ok_, bad_, where=None):
         return ck_ob(cond, rule, f.name, "%s[%s]" % (construct, label), ok_, bad_, where or w0)
     seen_entry, seen_iter = set(), set()
+    entry_refuse = set()
+    entry_excl0, gen_paths = [], []
     for p in ps:
         cls = [e for e in p.events if e[0] == "class" and e[1] == "start"]
         ev = calls(p)
@@ -356,7 +372,20 @@ def check_hkdf(ck_ob, mod, label):
             if p.end[0] == "ret":
                 ln = p.eqs.get(OLEN)
                 if ln is None:
-                    c("STREAM", False, "leftover-class(posn=%d)" % pz, "", "a path returns without fixing the requested length (conds %s)" % [(x[0], repr(x[1]), x[2]) for x in p.conds])
+                    # a refusal taken before the block loop (limit check hoisted): legitimate if it zero-fills the rest and returns -1 with the counter at 0
+                    cnt_e = p.start_lfmem.get((ST, CNT, 1))
+                    if cnt_e is None:
+                        cnt_e = Lf.s(("fld", ST, CNT, p.objgen.get(ST, 0)))
+                    rv_e = ex.subst(p, p.end[1]).const() if (p.end[1] is not None and not is_word(p.end[1])) else None
+                    okr = not ev and len(var) == 1 and var[0][2] == "memset-var" and var[0][3][1] == "0" and ex.subst(p, cnt_e).const() == 0 and rv_e is not None and (rv_e & 0xFFFFFFFF) == 0xFFFFFFFF \
+                        and var[0][3][0] == repr(Lf({OUTP: 1, 1: avail}) if avail else Lf.s(OUTP)) and var[0][3][2] == repr(Lf({OLEN: 1, 1: -avail}) if avail else Lf.s(OLEN))
+                    if not okr:
+                        raise Broken("tinyjambu_hkdf_expand: a path returns before the block loop without its conditions fixing the requested length (buffer position %d): unrecognised shape" % pz)
+                    seen_entry.add((pz, "refuse"))
+                    entry_refuse.add(pz)
+                    okc = all(outs.get((OUTP, i)) == list(gf2.sym_word(("mem", ST, OUTF + pz + i), 8)) for i in range(avail)) and not [k for k in outs if k[0] == OUTP and k[1] >= avail]
+                    c("REFUSE", okc, "refuse-before-loop(posn=%d)" % pz, "counter 0 and more than the %d left-over bytes requested: left-over bytes served, the rest zero-filled, -1 returned" % avail,
+                      "refusal before the loop does not serve the left-over bytes first")
                     continue
                 seen_entry.add((pz, "short", ln))
                 okb = all(outs.get((OUTP, i)) == list(gf2.sym_word(("mem", ST, OUTF + pz + i), 8)) for i in range(ln)) and not [k for k in outs if k[0] == OUTP and k[1] >= ln]
@@ -370,6 +399,10 @@ def check_hkdf(ck_ob, mod, label):
                 n += 3
             elif p.end[0] == "loop-entry":
                 seen_entry.add((pz, "loop"))
+                cnt_e = p.start_lfmem.get((ST, CNT, 1))
+                if cnt_e is None:
+                    cnt_e = Lf.s(("fld", ST, CNT, p.objgen.get(ST, 0)))
+                entry_excl0.append(_excludes_zero(ex, p, cnt_e))
                 okb = all(outs.get((OUTP, i)) == list(gf2.sym_word(("mem", ST, OUTF + pz + i), 8)) for i in range(avail)) and not [k for k in outs if k[0] == OUTP and k[1] >= avail]
                 c("STREAM", okb and not ev and not var, "leftover-all(posn=%d)" % pz, "the %d left-over bytes are copied out first" % avail, "left-over bytes not copied from last_block[%d..32)" % pz)
                 ic, ir_ = p.env.get(("init", ptrs[0].id)), p.env.get(("init", ints[0].id))
@@ -398,6 +431,7 @@ def check_hkdf(ck_ob, mod, label):
             continue
         # a block is generated
         first = cntc == 1
+        gen_paths.append((p, cnt0))
         names = [e[2] for e in ev]
         want = ["tinyjambu_hmac_init"] + ([] if first else ["tinyjambu_hmac_update"]) + ["tinyjambu_hmac_update", "tinyjambu_hmac_update", "tinyjambu_hmac_finalize", "tinyjambu_hmac_free"]
         seen_iter.add("first" if first else "next")
@@ -441,16 +475,46 @@ def check_hkdf(ck_ob, mod, label):
         else:
             ln = p.eqs.get(rem)
             if ln is None:
-                c("STREAM", False, "last-block-class", "", "last partial block: remaining length not fixed by the path conditions")
-                continue
+                raise Broken("tinyjambu_hkdf_expand: the last partial block is produced on a path whose conditions do not fix the remaining length: unrecognised shape")
         okb = all(outs.get((cur, i)) == list(mac[i]) for i in range(ln)) and not [kk for kk in outs if kk[0] == cur and kk[1] >= ln]
         c("STREAM", okb, "block-copy(%s,%d)" % ("first" if first else "next", ln), "the first %d byte(s) of the new block are copied to the output cursor" % ln, "output bytes are not T(n)[0..%d)" % ln)
         c("STREAM", p.lfmem.get((ST, POSN, 1)) == Lf.c(ln), "block-posn(%s,%d)" % ("first" if first else "next", ln), "position = %d bytes of the block handed out" % ln,
           "position becomes %s, expected %d" % (p.lfmem.get((ST, POSN, 1)), ln))
         n += 6
-    c("STREAM", {pz for (pz, *_r) in seen_entry} == set(range(33)), "classes-position", "all 33 buffer positions analysed", "positions analysed: %s" % sorted({pz for (pz, *_r) in seen_entry}))
-    c("SEQ", {"refuse", "first", "next"} <= seen_iter, "classes-iteration", "iteration classes: refused (counter 0), first block (counter 1), later blocks", "iteration classes found: %s" % sorted(seen_iter))
-    return n + 2
+    if {pz for (pz, *_r) in seen_entry} != set(range(33)):
+        raise Broken("tinyjambu_hkdf_expand: only the buffer positions %s were followed to the block loop or a return: unrecognised shape" % sorted({pz for (pz, *_r) in seen_entry}))
+    c("STREAM", True, "classes-position", "all 33 buffer positions analysed", "")
+    if not {"first", "next"} <= seen_iter:
+        raise Broken("tinyjambu_hkdf_expand: iteration classes found %s, expected the first block (counter 1) and later blocks: unrecognised shape" % sorted(seen_iter))
+    # the 255-block limit: no block may be generated with the counter at its terminal value 0.  Either every generating iteration
+    # excludes counter == 0 by its own conditions (check at the top of each iteration), or 'counter != 0 at the loop head' is an
+    # inductive invariant: every entry into the loop excludes 0 and every back edge carries a non-zero new counter.
+    top = all(_excludes_zero(ex, p_, c0_) for p_, c0_ in gen_paths)
+    ind = bool(entry_excl0) and all(entry_excl0) and all(q.end[0] != "backedge" or _excludes_zero(ex, q, q.lfmem.get((ST, CNT, 1))) for q, _c in gen_paths)
+    c("REFUSE", top or ind, "no-block-after-255", "no block is generated once the 8-bit counter has wrapped to 0: %s" % ("checked at the top of every iteration" if top else "counter != 0 is an inductive invariant of the loop"),
+      "a block can be generated with the block counter at 0 (255 blocks already handed out): the check is neither made in every iteration nor implied by the loop's entry and back-edge conditions "
+      "- key material beyond 8160 bytes is produced instead of the refusal")
+    c("SEQ", True, "classes-iteration", "iteration classes: %s" % sorted(seen_iter), "")
+    return n + 3
+
+
+def _excludes_zero(ex, p, lf):
+    """do the conditions of path p exclude that the linear form lf (a counter cell) is 0?"""
+    if lf is None or is_word(lf):
+        return False
+    v = ex.subst(p, lf)
+    cst = v.const()
+    if cst is not None:
+        return cst != 0
+    syms = [s_ for s_ in v if s_ != 1]
+    if len(syms) != 1 or v[syms[0]] != 1:
+        return False
+    k0 = v.get(1, 0)
+    lo, hi, excl = ex._range(p, Lf({syms[0]: 1}))
+    tgt = (-k0) % 256          # the cell is one byte wide: sym + k0 is 0 (mod 256) exactly when sym = -k0 (mod 256)
+    if isinstance(syms[0], tuple) and syms[0][0] == "mod":
+        tgt = -k0
+    return (lo is not None and tgt < lo) or (hi is not None and tgt > hi) or tgt in excl
 
 
 def hashbyte(p, obj, off):
@@ -640,7 +704,9 @@ def check_pbkdf2(ck_ob, mod, label):
             n += _pb_tail(c, f, ex, p, ev[1:], outs, None, None, cur, rem, pcur, remphi, bnphi, BN, full, remc2, ev[0][3][0], from_chain=True, arr=arr)
             continue
         c("F", False, "unexpected-segment", "", "unexpected event sequence %s (end %s)" % (names[:5], p.end[0]))
-    c("F", {"count<=1", "count>1", "chain", "chain-exit"} <= seen, "classes", "all segment classes found (count <= 1, count > 1, generic chain iteration, chain exit)", "segment classes found: %s" % sorted(seen))
+    if not {"count<=1", "count>1", "chain", "chain-exit"} <= seen:
+        raise Broken("tinyjambu_pbkdf2: segment classes found %s, expected count <= 1, count > 1, a generic chain iteration and the chain exit: unrecognised shape" % sorted(seen))
+    c("F", True, "classes", "all segment classes found (count <= 1, count > 1, generic chain iteration, chain exit)", "")
     return n + 1
 
 
@@ -838,6 +904,10 @@ def check_prng(ck_ob, mod, label):
         # emitted bytes
         outs = mode.outs_of(p)
         curs = {k_[0] for k_ in outs if k_[0][0] in ("hdp", "arg") and k_[0] != ST}
+        symw = [e_ for e_ in p.events if e_[0] in ("out-sym", "store-unknown", "load-unknown", "VARMEM")]
+        if len(curs) != 1 or symw or any(not isinstance(k_[1], int) for k_ in outs if k_[0] in curs) or next(iter(curs))[0] != "hdp":
+            raise Broken("tinyjambu_prng_generate: the output of a block is not written at constant offsets of one loop-carried output cursor "
+                         "(objects %s, unresolved %s): index-based or otherwise unrecognised loop shape" % (sorted(curs, key=repr), [e_[0] for e_ in symw][:2]))
         ln = None
         okb = False
         for ob in curs:
